@@ -90,8 +90,7 @@ class C09(Prop):
         return (req, meta, None)
 
     def oracle(self, tier, rng, suspicious):
-        cases = [c[:2] for c in self.grid()]
-        results = R.run_cases(cases)
+        results = [r for r in (self.l1_results or []) if r.meta.get('grid')] or R.run_cases([c[:2] for c in self.grid()])
         mods, expect = [], {}
         for r in results:
             m = r.meta
